@@ -144,10 +144,11 @@ class Run:
             self.cv.notify_all()
             end = time.time() + 4 * PARK_TIMEOUT
             while not self.grant[tid]:
-                if self.aborted:
-                    raise SystemExit
-                if time.time() > end:
-                    raise SystemExit
+                # never raise from a trace function (it crashes CPython 3.12.1 now and then):
+                # after an abort / timeout the thread simply runs on unscheduled
+                if self.aborted or time.time() > end:
+                    self.aborted = True
+                    break
                 self.cv.wait(0.05)
             self.grant[tid] = False
             self.state[tid] = 'running'
@@ -195,12 +196,26 @@ class Run:
         for e in self.die_ev.values():
             e.set()
         threading.settrace(None)
+        # cleanup only (the verdict of the run is already recorded): make a monitor that is still
+        # looping leave, so that no busy thread survives the run
+        mon = getattr(self, 'mon_thread', None)
+        if mon is not None:
+            threading.Thread.join(mon, 0.2)
+            if mon.is_alive():
+                try:
+                    self.obj._closed = True
+                    self.obj._active = set()
+                except Exception:
+                    pass
+                threading.Thread.join(mon, 2.0)
+        if self.closer is not None:
+            self.closer.join(1.0)
 
     def _reg_target(self, t):
         def target():
             self.tid_of[threading.get_ident()] = t
             self.obj.register()
-            self.die_ev[t].wait(4 * PARK_TIMEOUT)
+            self.die_ev[t].wait(8 * PARK_TIMEOUT)
         return target
 
     def _close_target(self):
@@ -385,9 +400,9 @@ def execute(env, schedule, raises=(), fine=False, drain=True):
     except Deadlock as e:
         err = str(e)
     finally:
+        final_active = sorted(getattr(th, 'idx', -1) for th in list(run.obj._active)) if run.obj is not None else []
         run.stop()
         sys.settrace(old)
-    final_active = sorted(getattr(th, 'idx', -1) for th in list(run.obj._active)) if run.obj is not None else []
     return dict(labels=labels, outs=outs, events=run.events, final_active=final_active, error=err,
                 raises=sorted(raises))
 
@@ -895,6 +910,7 @@ def _fine_runs(ctx, corr, env, n):
         except Deadlock as e:
             err = str(e)
         finally:
+            fin_active = sorted(getattr(th, 'idx', -1) for th in list(run.obj._active))
             run.stop()
             sys.settrace(old)
         # projection: keep shared accesses; events of frame-local steps move to the thread's previous access
@@ -912,7 +928,7 @@ def _fine_runs(ctx, corr, env, n):
             if lab[0] == 'step':
                 last[lab[1]] = len(po) - 1
         runs.append(dict(labels=pl, outs=po, events=run.events, error=err, raises=sorted(raises), kind='fine',
-                         final_active=sorted(getattr(th, 'idx', -1) for th in list(run.obj._active))))
+                         final_active=fin_active))
     return runs
 
 
